@@ -182,6 +182,29 @@ def op_imports(op):
     return {"ok": [[i.qname, i.name] for i in r.sorted_imports()], "names": [[i.qname, i.name] for i in r.imports]}
 
 
+def op_resolver(op):
+    """The real DependenciesResolver.process on the classes of one module of a synthetic container."""
+    from xsdata.codegen.resolver import DependenciesResolver
+    from xsdata.utils.namespaces import local_name
+
+    container = mk_classes(op["classes"])
+    classes = list(container)
+    registry = {obj.qname: "gen." + obj.qname.split("}")[0][5:].replace(":", ".") for obj in classes}
+    module = [obj for obj in classes if obj.qname in set(op["module"])]
+    out = {"D": [[obj.qname, list(obj.dependencies())] for obj in module], "module": [obj.qname for obj in module],
+           "names": [[obj.qname, local_name(obj.qname)] for obj in classes]}
+    r = DependenciesResolver(registry=registry)
+    try:
+        r.process(module)
+        out["class_list"] = list(r.class_list)
+        out["imports"] = [i.qname for i in r.imports]
+        out["sorted"] = [[i.qname, i.name] for i in r.sorted_imports()]
+        out["aliases"] = [[i.qname, i.source, i.alias] for i in r.sorted_imports()]
+    except Exception as e:  # noqa
+        out.update(exc(e))
+    return out
+
+
 # ------------------------------------------------------------------ the real pipeline
 _IDKEYS = ("choice", "group")
 
@@ -347,7 +370,7 @@ def op_config_roundtrip(op):
 
 
 OPS = {"scc": op_scc, "topo": op_topo, "clusters": op_clusters, "class_list": op_class_list, "types": op_types,
-       "sort_types_direct": op_sort_types_direct, "reset": op_reset, "imports": op_imports, "pipeline": op_pipeline,
+       "sort_types_direct": op_sort_types_direct, "reset": op_reset, "imports": op_imports, "resolver": op_resolver, "pipeline": op_pipeline,
        "config_roundtrip": op_config_roundtrip}
 
 
